@@ -6,6 +6,7 @@
     the XML of the document (C18), the cryptographic use of the certificate (C04). *)
 From Saml Require Import Xml.SchemaTypes Xml.Schema Gen.Schema Xml.SamlSpec.
 From Saml Require Import Base.Bytes Idp.FactTypes Gen.Facts Gen.Pure Idp.Sso Idp.Router Proofs.SsoProofs Proofs.SsoAccept Proofs.SsoLiveness Idp.BuilderTypes Idp.Builder Idp.BuiltDoc Core.Destination Idp.CheckedLocs Core.UrlPath Idp.AdvertisedPath.
+From Saml Require Gen.Nec Core.Necessary.
 From Coq Require Import List. Import ListNotations.
 
 (** the model's routes / advertised locations / entity ID are what the current source says *)
@@ -196,6 +197,26 @@ Example C11_request_path_example :
   url_path (Endpoint_Absolute (c_attr cfg) (b "https://idp.example/saml")) = b "/saml" ++ Endpoint_Relative (c_attr cfg).
 Proof. split; vm_compute; reflexivity. Qed.
 
+(** THE FLAG, ON THE TRANSLATED SOURCE.  With the deciding functions of post.go / redirect.go as go2v translates them (Gen/Nec.v): when the
+    advertised flag is an xs:boolean true, a signature check is necessary for every request of the matching binding, whatever the provider's own
+    flag and whether or not the request carries a signature; when neither flag is true it is necessary exactly when the request carries one *)
+Theorem C11_flag_enforced_from_source : forall want (f : form) (a : authn) (s : sp_rec),
+  (xs_true want = true ->
+     Nec.signaturePostVerificationNecessary (Some (Necessary.view_idp want)) (Some (Necessary.view_sp s)) (option_map Necessary.view_sig (a_signature a)) (f_binding f)
+       = beq (f_binding f) c_PostBinding /\
+     Nec.signatureRedirectVerificationNecessary (Some (Necessary.view_idp want)) (Some (Necessary.view_sp s)) (f_sig f) (f_binding f) = beq (f_binding f) c_RedirectBinding) /\
+  (xs_true want = false -> xs_true (sp_authn_signed s) = false ->
+     Nec.signaturePostVerificationNecessary (Some (Necessary.view_idp want)) (Some (Necessary.view_sp s)) (option_map Necessary.view_sig (a_signature a)) (f_binding f)
+       = (post_provided (a_signature a) && beq (f_binding f) c_PostBinding)%bool /\
+     Nec.signatureRedirectVerificationNecessary (Some (Necessary.view_idp want)) (Some (Necessary.view_sp s)) (f_sig f) (f_binding f)
+       = (negb (is_empty (f_sig f)) && beq (f_binding f) c_RedirectBinding)%bool).
+Proof.
+  intros want f a s. rewrite Necessary.post_necessary_bridge, Necessary.redirect_necessary_bridge.
+  unfold post_necessary, redirect_necessary, signing_required. split.
+  - intros ->. rewrite Bool.orb_true_r. split; reflexivity.
+  - intros -> ->. split; reflexivity.
+Qed.
+
 Print Assumptions C11_from_source.
 Print Assumptions C11_entity_id.
 Print Assumptions C11_routes.
@@ -211,3 +232,4 @@ Print Assumptions C11_checked_is_advertised.
 Print Assumptions C11_accepted_destination.
 Print Assumptions C11_document_is_router_model.
 Print Assumptions C11_advertised_request_path.
+Print Assumptions C11_flag_enforced_from_source.
